@@ -1,5 +1,5 @@
-(* Lradius — RADIUS codec (layers/radius.go): contributions to C19, C05, C06 (partial), C07, C01. *)
-From GP Require Import Base Codec MiscLib LradiusModel LradiusProofs.
+(* Lradius — RADIUS codec (layers/radius.go): contributions to C19, C05, C06, C07, C01. *)
+From GP Require Import Base Codec MiscLib LradiusModel LradiusProofs LradiusRt.
 Open Scope Z_scope.
 
 (* for both variants of the decoder; no hypothesis on the octets *)
@@ -54,18 +54,17 @@ Print Assumptions C07_radius_junk_free.
 Theorem C01_radius_render_total : forall orig old data, rad_render_panics (fst (fst (rad_decode_gen orig old data))) = false.
 Proof. reflexivity. Qed.
 
-(* C06 positive statement: stated, not proved (partial) — covered by the correspondence runs and the C06 oracle.
-   Hypothesis: octet fields in range, 16 authenticator octets, attribute values of 1..253 octets, at most 4096
-   octets in all, nothing under the layer. *)
-Definition rad_wf (l : radius) : Prop :=
-  0 <= r_code l < 256 /\ 0 <= r_ident l < 256 /\ zlen (r_auth l) = 16 /\ bytes_ok (r_auth l) /\
-  Forall (fun a => 0 <= ra_type a < 256 /\ 1 <= zlen (ra_value a) <= 253) (r_attrs l) /\ 20 + rad_asum (r_attrs l) <= 4096.
-Definition C06_radius_roundtrip_statement : Prop := forall l csum junk bytes l' old,
+(* C06 (repaired serializer, FixLengths): octet code/identifier, 16 authenticator octets, attributes of octet type with
+   1..253 value octets, at most 4096 octets in all, nothing under the layer: decoding the written bytes into any object
+   gives code, identifier, Length as fixed, the authenticator, the attributes with Length = len(Value) + 2, and the payload
+   derived from the EAP-Message attributes; no error, no truncation. *)
+Theorem C06_radius_roundtrip : forall l csum junk bytes l' old,
   rad_wf l -> rad_serialize l [] true csum junk = (Ok bytes, l') ->
-  exists d, rad_decode_into old bytes = (d, Ok tt, false) /\ r_code d = r_code l /\ r_ident d = r_ident l /\
-    r_length d = 20 + rad_asum (r_attrs l) /\ r_auth d = r_auth l /\
-    map (fun a => (ra_type a, ra_value a)) (r_attrs d) = map (fun a => (ra_type a, ra_value a)) (r_attrs l) /\
-    Forall (fun a => ra_len a = zlen (ra_value a) + 2) (r_attrs d) /\ r_payload d = rad_eap (r_attrs l).
+  l' = rad_l1 true l /\
+  rad_decode_into old bytes =
+    (mkRad bytes (rad_eap (r_attrs l)) (r_code l) (r_ident l) (20 + rad_asum (r_attrs l)) (r_auth l) (map ra_norm (r_attrs l)), Ok tt, false).
+Proof. exact rad_roundtrip. Qed.
+Print Assumptions C06_radius_roundtrip.
 
 Example Lradius_nonvacuous :
   let l := mkRad [] [] 1 7 0 (repeat 0 16) [mkRa 1 0 [98;111;98]] in
@@ -74,5 +73,5 @@ Proof.
   split; [|vm_compute; reflexivity].
   unfold rad_wf. cbn. repeat split; try lia; try reflexivity.
   - repeat constructor; discriminate.
-  - constructor; [cbn; unfold zlen; cbn; lia|constructor].
+  - constructor; [unfold ra_wf; cbn; unfold zlen; cbn; lia|constructor].
 Qed.
